@@ -39,7 +39,7 @@ CHECKS = {
  "C02": ("exploration",
          "two-way differential against an independent MPQ reader/writer (refmpq) written from the published format; proptest-generated archives on both sides + grids",
          "Direction A parses ArchiveBuilder output with refmpq (header fields, table keys, reference probing, per-sector method bytes, standard zlib/bzip2 streams, file keys from the plain name, trailing bytes in clear) and demands bit-identical extraction; direction B serialises abstract archives with refmpq's writer (collision chains through DELETED markers, gaps, reversed order, header behind junk at a 512-aligned offset, single-unit and sectored, raw-sectored uncompressed files, encrypted/fix-key) and demands that Archive::open reads every file bit-identically under each spelling and does not find deleted names. The reference must read its own output first (else exit 2).",
-         "The reference is my reading of the published format, not StormLib itself. Subset: V1/V2, classic tables, none/zlib/bzip2, sector CRC off.",
+         "The reference is my reading of the published format, not StormLib itself. Subset: V1/V2, classic tables, none/zlib/bzip2; sector checksums (checksum sector behind the data, ADLER32 of the stored sectors, compressed when smaller, never encrypted) are written and verified by the reference on both sides.",
          "DESIGN.md §4 C02"),
  "C07": ("exploration",
          "proptest-generated (source archive × rebuild options) + 4×4 version grid; oracle = generator ground truth vs target contents, listing, summary counts, compare_archives (with metamorphic control)",
